@@ -19,6 +19,7 @@ import (
 	"strings"
 	"time"
 
+	"github.com/hyperledger/firefly-common/pkg/config"
 	"github.com/hyperledger/firefly-signer/pkg/eip712"
 	"github.com/hyperledger/firefly-signer/pkg/ethsigner"
 	"github.com/hyperledger/firefly-signer/pkg/ethtypes"
@@ -131,6 +132,46 @@ func newTx(raw []byte, eip1559 bool) *ethsigner.Transaction {
 	return tx
 }
 
+// buildConf goes through the package's own configuration reader (config.go: InitConfig defaults and
+// ReadConfig field mapping), leaving a key unset whenever the wanted value is the documented default.
+func buildConf(c *wcase) *fswallet.Config {
+	config.RootConfigReset()
+	sec := config.RootSection("c08wallet")
+	fswallet.InitConfig(sec)
+	x := c.Conf
+	set := func(k string, v interface{}, isDefault bool) {
+		if !isDefault {
+			sec.Set(k, v)
+		}
+	}
+	set(fswallet.ConfigPath, x.Path, false)
+	set(fswallet.ConfigDefaultPasswordFile, x.DefaultPasswordFile, x.DefaultPasswordFile == "")
+	set(fswallet.ConfigSignerCacheSize, x.SignerCacheSize, false)
+	set(fswallet.ConfigSignerCacheTTL, x.SignerCacheTTL, x.SignerCacheTTL == "" || x.SignerCacheTTL == "24h")
+	set(fswallet.ConfigDisableListener, !c.Listener, c.Listener)
+	set(fswallet.ConfigFilenamesPrimaryExt, x.Filenames.PrimaryExt, x.Filenames.PrimaryExt == "")
+	set(fswallet.ConfigFilenamesPrimaryMatchRegex, x.Filenames.PrimaryMatchRegex, x.Filenames.PrimaryMatchRegex == "")
+	set(fswallet.ConfigFilenamesPasswordExt, x.Filenames.PasswordExt, x.Filenames.PasswordExt == "")
+	set(fswallet.ConfigFilenamesPasswordPath, x.Filenames.PasswordPath, x.Filenames.PasswordPath == "")
+	set(fswallet.ConfigFilenamesPasswordTrimSpace, x.Filenames.PasswordTrimSpace, x.Filenames.PasswordTrimSpace)
+	set(fswallet.ConfigFilenamesWith0xPrefix, x.Filenames.With0xPrefix, !x.Filenames.With0xPrefix)
+	set(fswallet.ConfigMetadataFormat, x.Metadata.Format, x.Metadata.Format == "auto")
+	set(fswallet.ConfigMetadataKeyFileProperty, x.Metadata.KeyFileProperty, x.Metadata.KeyFileProperty == "")
+	set(fswallet.ConfigMetadataPasswordFileProperty, x.Metadata.PasswordFileProperty, x.Metadata.PasswordFileProperty == "")
+	got := fswallet.ReadConfig(sec)
+	want := x
+	want.DisableListener = !c.Listener
+	if want.SignerCacheTTL == "" {
+		want.SignerCacheTTL = "24h"
+	}
+	if *got != want {
+		confDiffs++
+	}
+	return got
+}
+
+var confDiffs int
+
 func runCase(c *wcase, base string) {
 	cwd, _ := os.Getwd()
 	os.RemoveAll(base)
@@ -150,8 +191,7 @@ func runCase(c *wcase, base string) {
 		}
 	}
 	ctx := context.Background()
-	conf := c.Conf
-	conf.DisableListener = !c.Listener
+	conf := *buildConf(c)
 	var w fswallet.Wallet
 	func() {
 		defer func() {
@@ -572,6 +612,13 @@ func main() {
 		if only >= 0 {
 			b, _ := json.MarshalIndent(d, "", " ")
 			fmt.Println("implementation:", string(b))
+			// the model's side of the replay: per step (index, result class 0 Ok / 1 Err / 2 Panic / 9 not a
+			// request, 1 if the model returns the key the implementation reported | number of accounts)
+			tf := filepath.Join(*out, "trace_C08_replay.v")
+			os.WriteFile(tf, []byte(header+"\nDefinition cases : list wcase := [\n  "+c.coq()+"\n].\n"+
+				"Definition M := Eval vm_compute in (mismatches cases).\nPrint M.\n"+
+				"Definition T := Eval vm_compute in (map model_trace cases).\nPrint T.\n"), 0o644)
+			fmt.Println("model: per-step trace of the Coq model is printed by", tf, "(output in "+tf+".out, see Wallet/Run.v model_trace)")
 		}
 		if len(st.Samples) < 4 && i >= nCorpus {
 			st.Samples = append(st.Samples, d)
@@ -583,6 +630,7 @@ func main() {
 	}
 	st.Evaluations = st.Distribution["requests"] + st.Distribution["op:accounts"] + st.Distribution["op:refresh"] + st.Distribution["constructor-error"]
 	st.Extra["wallets"] = w.Count()
+	st.Extra["configurations_read_differently_by_ReadConfig"] = confDiffs
 	st.Rule = "one case = one wallet (configuration x temporary directory) with a history of 8-18 operations; evaluations = key requests (Sign / SignTypedDataV4 / GetWalletFile) + GetAccounts + Initialize/Refresh observations compared with the model; distinct_nontrivial = distinct (configuration class, file layout of the requested address, request form, cached or not, outcome) combinations among key requests, excluding requests for addresses unknown to the wallet"
 	if err := st.Write(filepath.Join(*out, "stats_C08.json")); err != nil {
 		panic(err)
@@ -625,6 +673,9 @@ func account(st *cv.Stats, c *wcase, seen map[string]bool) {
 			}
 			a := hex.EncodeToString(h.Want)
 			cached := okBefore[a]
+			if lo := layoutOf(c, h.Want); lo == "good" || lo == "absent" || lo == "wrong-key" {
+				st.Hit(fmt.Sprintf("outcome:%s:%s:class%d", strings.SplitN(cc, "|", 3)[1], lo, h.Cls))
+			}
 			if h.Cls == 0 {
 				okBefore[a] = true
 				if cached {
